@@ -15,20 +15,20 @@ import (
 // expectations are derived from the recorded event log, not from the script.
 
 type TreeCfg struct {
-	MinFork    int // index into ForkNames (default Byzantium)
-	MaxFork    int
-	Contracts  int  // 0: 2..4
-	Budget     int  // max frames reachable from one contract (default 10)
-	Journal    bool // include journal actions
-	MaxInvs    int
-	NoCreate   bool
-	NoSelfd    bool
-	AllKinds   bool // top-level entry points of all kinds (default: mostly call)
-	EmptyData  int  // percentage of calls with empty calldata
-	ValuePct   int  // percentage of calls carrying value
-	LowGasPct  int  // percentage of calls with a small fixed gas
-	Transient  bool
-	ReturnBig  bool
+	MinFork   int // index into ForkNames (default Byzantium)
+	MaxFork   int
+	Contracts int  // 0: 2..4
+	Budget    int  // max frames reachable from one contract (default 10)
+	Journal   bool // include journal actions
+	MaxInvs   int
+	NoCreate  bool
+	NoSelfd   bool
+	AllKinds  bool // top-level entry points of all kinds (default: mostly call)
+	EmptyData int  // percentage of calls with empty calldata
+	ValuePct  int  // percentage of calls carrying value
+	LowGasPct int  // percentage of calls with a small fixed gas
+	Transient bool
+	ReturnBig bool
 }
 
 type treeGen struct {
